@@ -135,11 +135,13 @@ def random_arrays(ctx):
     import cubed
     import cubed.random
 
-    for _ in range(ctx.n(16, 120)):
+    for _ in range(ctx.n(24, 160)):
         shape = tuple(ctx.rng.randint(2, 9) for _ in range(ctx.rng.choice([1, 2, 3, 3, 4])))
         if len(shape) >= 3:
             shape = tuple(min(n, 6) for n in shape)
         chunks = tuple(ctx.rng.randint(1, n) for n in shape)
+        if len(shape) >= 3:
+            chunks = tuple(ctx.rng.randint(1, max(1, n // 2)) for n in shape)      # several blocks along every axis
         prog = {"random": {"shape": shape, "chunks": chunks}}
         from harness.obs import Built as _B
         import zarr
